@@ -27,10 +27,12 @@ BIG = {
                          (193, 193)]},
     "tri": {"quick": [(70, 70), (97, 97), (130, 130)],
             "thorough": [(n, n) for n in (63, 64, 65, 66, 96, 100, 127, 128, 129, 130, 200)]},
+    "ls": {"quick": [(40, 33), (140, 130)],
+           "thorough": [(40, 33), (70, 64), (129, 129), (140, 130), (200, 150), (161, 161)]},
     "larft": {"quick": [], "thorough": []},
 }
 LEMMA = {"quick": dict(SMALL=5, BIG=[(12, 12), (9, 14)]), "thorough": dict(SMALL=8, BIG=[(20, 20), (33, 30), (14, 25)])}
-FAMS = ("lu", "chol", "qr", "qp3", "tri", "larft")
+FAMS = ("lu", "chol", "qr", "qp3", "tri", "ls", "larft")
 FORCED = {"quick": [(1, 0), (2, 0), (3, 0), (4, 0), (2, 2), (3, 2)],
           "thorough": [(nb, nx) for nb in (1, 2, 3, 4, 5, 7) for nx in (0, 2)]}
 
@@ -54,7 +56,7 @@ def run(ctx):
     # ---- R1: uniqueness / definition lemmas behind the planted instances --------------------
     lm = LEMMA[ctx.tier]
     for fam in FAMS:
-        big = lm["BIG"] if fam in ("lu", "qr", "qp3") else [(n, n) for _, n in lm["BIG"]] if fam in ("chol", "tri") else []
+        big = lm["BIG"] if fam in ("lu", "qr", "qp3") else [(m + n, n) for m, n in lm["BIG"]] if fam == "ls" else [(n, n) for _, n in lm["BIG"]] if fam in ("chol", "tri") else []
         ctx.tlc("lapack/PlantedLemmas.tla", "lapack/PlantedLemmas.cfg", name="R1 PlantedLemmas %s" % fam,
                 subst=dict(FAM=fam, SMALL=lm["SMALL"], BIG=enc(big), NRHS=2, SEED=ctx.seed), workers=4)
 
@@ -68,7 +70,7 @@ def run(ctx):
         # the blocked code runs on every small shape, around its own block edges
         if fam != "larft":
             for nb, nx in FORCED[ctx.tier]:
-                if fam not in ("qr", "qp3") and nx != 0:
+                if fam not in ("qr", "qp3", "ls") and nx != 0:
                     continue        # only the QR/LQ family has a crossover parameter
                 for bn, _ in (builds[:2] if thorough else builds[:1]):
                     ctx.replay(bins[bn], "lapack", cases, args + ["nb=%d" % nb, "nx=%d" % nx],
